@@ -2,6 +2,8 @@ import PgBifrost.Proofs.BatcherBuilt
 import PgBifrost.Proofs.BatcherDrops
 import PgBifrost.Gen.Consts
 import PgBifrost.Gen.BatcherSwitch
+import PgBifrost.Gen.KinesisAdd
+import PgBifrost.Gen.OtherAdds
 /-!
 # C15 — batches respect the sink's hard limits
 
@@ -190,5 +192,65 @@ theorem reaction_per_error_class :
       [("ERR_CANT_FIT", "resendOnFreshBatch"), ("ERR_MSG_TOOBIG", "drop:dropped_too_big"),
        ("ERR_MSG_INVALID", "drop:dropped_msg_invalid"), ("default", "fatal")] ∧
     PgBifrost.Gen.Consts.eRR_FULL = "batch is full" := by decide
+
+/-! ## `KinesisBatch.Add` is the chain of checks in the source
+
+`Gen/KinesisAdd.lean` is TRANSLATED on every run from `KinesisBatch.Add` / `IsFull`: the guarded
+`return false, errors.New(transport.ERR_…)` statements in source order with their conditions, and whether
+`progress.UpdateTransactions` ran before returning. The batch model answers exactly like it: a reordered
+check, a `>` turned into `>=`, a key length left out of the size, a drop that is no longer counted — each
+breaks this theorem. -/
+section source
+open PgBifrost.Gen.KinesisAdd
+
+def className : AddRes → String
+  | .ok => "ok" | .full => "ERR_FULL" | .cantFit => "ERR_CANT_FIT" | .tooBig => "ERR_MSG_TOOBIG" | .invalid => "ERR_MSG_INVALID"
+
+theorem kinesis_add_as_in_source (R B S : Nat) (meth : KinesisMethod) (b : Batch) (m : Msg) :
+    let r := (kinesisKind R B S meth).add b m
+    let src := Gen.KinesisAdd.add false (kinesisKeyLen meth m != 0) m.size (kinesisKeyLen meth m) b.bytes b.payload.length S B R
+    className r.1 = src.1 ∧
+    -- the transaction count moves exactly when the source calls UpdateTransactions
+    (r.2.txns = if src.2 then updateTxns b.txns m else b.txns) ∧
+    ((kinesisKind R B S meth).isFull b = Gen.KinesisAdd.isFull b.payload.length R) := by
+  simp only [kinesisKind, Gen.KinesisAdd.add, Gen.KinesisAdd.isFull]
+  by_cases h1 : S < m.size
+  · simp [h1, className]
+  · by_cases h2 : R ≤ b.payload.length
+    · simp [h1, h2, className]
+    · by_cases h3 : B < m.size + kinesisKeyLen meth m + b.bytes
+      · simp [h1, h2, h3, className]
+      · by_cases h4 : kinesisKeyLen meth m = 0
+        · have h3' : ¬ B < m.size + b.bytes := by rw [h4] at h3; simpa using h3
+          simp [h1, h2, h4, h3', className]
+        · simp [h1, h2, h3, h4, className]
+
+/-- the generic batch (S3, RabbitMQ, stdout workers) answers like the translated `GenericBatch.Add` / `IsFull` -/
+theorem generic_add_as_in_source (n : Nat) (b : Batch) (m : Msg) :
+    let r := (genericKind n).add b m
+    let src := Gen.OtherAdds.genericAdd false b.payload.length n
+    (r.1 = .full ↔ src.1 = "batch is full") ∧ (r.1 = .ok ↔ src.1 = "ok") ∧
+    (r.2.txns = if src.2 then updateTxns b.txns m else b.txns) ∧
+    ((genericKind n).isFull b = Gen.OtherAdds.genericIsFull b.payload.length n) := by
+  simp only [genericKind, Gen.OtherAdds.genericAdd, Gen.OtherAdds.genericIsFull]
+  by_cases h : b.payload.length = n <;> simp [h]
+
+/-- the Kafka batch answers like the translated `KafkaBatch.Add` / `IsFull`, and the producer's size check sees
+the message with its key (`m.ksize` is `ByteSize(2)` of the keyed message, measured by the harness) -/
+theorem kafka_add_as_in_source (n maxBytes : Nat) (b : Batch) (m : Msg) :
+    let r := (kafkaKind n maxBytes).add b m
+    let src := Gen.OtherAdds.kafkaAdd false b.payload.length n m.ksize maxBytes
+    (r.1 = .full ↔ src.1 = "batch is full") ∧ (r.1 = .tooBig ↔ src.1 = "ERR_MSG_TOOBIG") ∧ (r.1 = .ok ↔ src.1 = "ok") ∧
+    (r.2.txns = if src.2 then updateTxns b.txns m else b.txns) ∧
+    ((kafkaKind n maxBytes).isFull b = Gen.OtherAdds.kafkaIsFull b.payload.length n) ∧
+    Gen.OtherAdds.kafkaKeySetBeforeSizeCheck = true := by
+  simp only [kafkaKind, Gen.OtherAdds.kafkaAdd, Gen.OtherAdds.kafkaIsFull]
+  by_cases h : b.payload.length = n
+  · simp [h]; decide
+  · by_cases h2 : maxBytes < m.ksize
+    · simp [h, h2]; decide
+    · simp [h, h2]; decide
+
+end source
 
 end PgBifrost.Props.C15
